@@ -17,10 +17,12 @@ kinds of cases
 usage: search_C10.py <seed> <n> | --replay <file>
 """
 import json
+import os
 import random
 import sys
 
 import common  # noqa: F401
+import lib_C09
 import numpy as np
 import sympy as sp
 
@@ -425,15 +427,19 @@ def main():
     if sys.argv[1] == "--replay":
         doc = json.load(open(sys.argv[2]))
         try:
-            fails = run_case(doc["replay"]["case"])
+            fails = lib_C09.run_with_prefix(run_case, doc["replay"]["case"])
         except Exception as exc:  # noqa: BLE001
-            fails = [("exception_" + type(exc).__name__, f"{type(exc).__name__}: {exc}"[:300])]
+            kind_ = doc["replay"]["case"].get("kind", "")
+            fails = [("exception_" + type(exc).__name__ + "/" + kind_, f"{type(exc).__name__}: {exc}"[:300])]
+        want = doc.get("signature")
+        if want and not want.startswith("unproved"):
+            fails = [f for f in fails if f[0] == want]
         print(json.dumps({"still_fails": bool(fails), "fails": fails[:5]}))
         return
     seed, n = int(sys.argv[1]), int(sys.argv[2])
     cases = gen_cases(seed, n)
     failures, kinds, samples, distinct, nev = [], {}, [], set(), 0
-    for c in cases:
+    for idx, c in enumerate(cases):
         try:
             fails = run_case(c)
         except Exception as exc:  # noqa: BLE001
@@ -445,12 +451,13 @@ def main():
         if len(samples) < 4 and c["kind"] not in [s_["kind"] for s_ in samples]:
             samples.append({k: v for k, v in c.items() if k not in ("Gamma", "gamma", "ma", "mb", "beta")})
         for sig, what in fails:
-            failures.append({"signature": sig, "what": what, "case": c})
+            failures.append({"signature": sig, "what": what, "case": c, "idx": idx})
     seen, uniq = set(), []
     for f in failures:
         if f["signature"] not in seen:
             seen.add(f["signature"])
             uniq.append(f)
+    uniq = lib_C09.make_replayable(os.path.abspath(__file__), cases, uniq[:20], skip=())
     print(json.dumps({"evaluations": nev, "distinct": len(distinct), "samples": samples, "kinds": kinds,
                       "failures": uniq[:20]}))
 
